@@ -8,9 +8,11 @@ from . import build, driver, xlang, xref
 M32 = 0xFFFFFFFF
 
 
-def interpret(P, inp, files, tier='quick', wrap=False):
+def interpret(P, inp, files, tier='quick', wrap=False, mode='normal'):
     """Reference result or raises xref.Undefined.  Returns the Interp (after run) with .exit set."""
     lim = (20000, 40) if tier == 'quick' else (200000, 400)
+    if mode == 'deep':
+        lim = (3000000, 13000)
     I = xref.Interp(P, inp, files, max_steps=lim[0], max_depth=lim[1], wrap=wrap)
     I.exit = I.run()
     return I
